@@ -71,17 +71,18 @@ type smWorld struct {
 	netR      uint32
 
 	// state machine as observed
-	smH        uint64
-	smR        uint32
-	entered    bool
-	answered   bool // the current round entrance has been answered
-	entrance   *tmeil.StateMachineRoundEntrance
-	actions    chan tmeil.StateMachineRoundAction
-	replaying  bool
-	viewBusy   bool // a view is being handed to the SM
-	viewCancel chan struct{}
-	viewCh     chan tmeil.StateMachineRoundView
-	lastSent   map[string]uint32
+	smH         uint64
+	smR         uint32
+	entered     bool
+	answered    bool // the current round entrance has been answered
+	entrance    *tmeil.StateMachineRoundEntrance
+	actions     chan tmeil.StateMachineRoundAction
+	replaying   bool
+	viewBusy    bool // a view is being handed to the SM
+	viewCancel  chan struct{}
+	pendingActs []tmeil.StateMachineRoundAction
+	viewCh      chan tmeil.StateMachineRoundView
+	lastSent    map[string]uint32
 
 	timers []*smTimer
 
@@ -515,16 +516,19 @@ func (sg smSigner) PubKey() gcrypto.PubKey { return sg.inner.PubKey() }
 type smActionStore struct{ w *smWorld }
 
 func (a smActionStore) SaveProposedHeaderAction(ctx context.Context, ph tmconsensus.ProposedHeader) error {
+	a.w.preSave("proposal", string(ph.Signature))
 	err := a.w.aStore.SaveProposedHeaderAction(ctx, ph)
 	a.w.recSave("proposal", string(ph.Signature), err)
 	return err
 }
 func (a smActionStore) SavePrevoteAction(ctx context.Context, pk gcrypto.PubKey, vt tmconsensus.VoteTarget, sig []byte) error {
+	a.w.preSave("prevote", string(sig))
 	err := a.w.aStore.SavePrevoteAction(ctx, pk, vt, sig)
 	a.w.recSave("prevote", string(sig), err)
 	return err
 }
 func (a smActionStore) SavePrecommitAction(ctx context.Context, pk gcrypto.PubKey, vt tmconsensus.VoteTarget, sig []byte) error {
+	a.w.preSave("precommit", string(sig))
 	err := a.w.aStore.SavePrecommitAction(ctx, pk, vt, sig)
 	a.w.recSave("precommit", string(sig), err)
 	return err
@@ -532,6 +536,33 @@ func (a smActionStore) SavePrecommitAction(ctx context.Context, pk gcrypto.PubKe
 func (a smActionStore) LoadActions(ctx context.Context, h uint64, r uint32) (tmstore.RoundActions, error) {
 	return a.w.aStore.LoadActions(ctx, h, r)
 }
+
+// preSave runs right before the action store is asked to record a signature: if that signature
+// has already been handed to the mirror, it was released before it was saved (C02).
+func (w *smWorld) preSave(kind, sig string) {
+	w.mu.Lock()
+	ch := w.actions
+	w.mu.Unlock()
+	for ch != nil {
+		select {
+		case a := <-ch:
+			w.mu.Lock()
+			w.pendingActs = append(w.pendingActs, a)
+			w.mu.Unlock()
+			continue
+		default:
+		}
+		break
+	}
+	w.mu.Lock()
+	defer w.mu.Unlock()
+	for _, a := range w.pendingActs {
+		if string(a.PH.Signature) == sig || string(a.Prevote.Sig) == sig || string(a.Precommit.Sig) == sig {
+			w.violate("C02/released-before-saved/"+kind, "the %s reached the mirror before the action store was asked to record it", kind)
+		}
+	}
+}
+
 func (w *smWorld) recSave(kind, sig string, err error) {
 	w.mu.Lock()
 	if err == nil {
@@ -860,6 +891,13 @@ func smPows(m map[string]uint64) string {
 
 // drainActions collects what the state machine released (C02: must have been saved before).
 func (w *smWorld) drainActions() {
+	w.mu.Lock()
+	pend := w.pendingActs
+	w.pendingActs = nil
+	w.mu.Unlock()
+	for _, a := range pend {
+		w.onAction(a)
+	}
 	for {
 		w.mu.Lock()
 		ch := w.actions
